@@ -21,16 +21,17 @@ import (
 )
 
 type CheckConfig struct {
-	PkgDirs        []string          `json:"pkg_dirs"`
-	Tags           string            `json:"tags"`
-	MaxPaths       int               `json:"max_paths"`
-	BudgetQuick    int               `json:"budget_quick_s"`    // per harness
-	BudgetThorough int               `json:"budget_thorough_s"` // per harness
-	Budgets        map[string]int    `json:"budgets"`
-	Bounds         map[string]string `json:"bounds"`
-	Assumptions    []string          `json:"assumptions"`
-	Outside        []string          `json:"outside"`
-	SkipInit       []string          `json:"skip_init"`
+	PkgDirs             []string          `json:"pkg_dirs"`
+	Tags                string            `json:"tags"`
+	MaxPaths            int               `json:"max_paths"`
+	BudgetQuick         int               `json:"budget_quick_s"` // per harness
+	BudgetThorough      int               `json:"budget_thorough_s"`
+	BudgetThoroughTotal int               `json:"budget_thorough_total_s"` // per harness
+	Budgets             map[string]int    `json:"budgets"`
+	Bounds              map[string]string `json:"bounds"`
+	Assumptions         []string          `json:"assumptions"`
+	Outside             []string          `json:"outside"`
+	SkipInit            []string          `json:"skip_init"`
 }
 
 func (c *CheckConfig) budget(name string, thorough bool) int {
